@@ -28,6 +28,8 @@ func c19Baselines() []c19Baseline {
 	coldFail.DialFails = 2
 	withU := cold
 	withU.Untrusted = 1
+	uFail := cold
+	uFail.Untrusted, uFail.UDialFails = 1, 2
 	giveUp := cold
 	giveUp.DialFails, giveUp.MaxRetries = 6, 2
 	burst := cold
@@ -45,6 +47,8 @@ func c19Baselines() []c19Baseline {
 			[]string{"ffail", "mine:R1", "ans", "tick:250", "tick:250", "ext:1", "ans", "tick:250", "astop", "tick:100"}, []string{"stop"}},
 		{"the trusted peer refuses more dials than MaxRetries (the node logs that it gives up and keeps trying); Stop at every point and at the end", histParams{Prop: "C19", Cfg: giveUp, Boot: "cold", Tx: true},
 			[]string{"tick:1000", "tick:1000", "tick:1000", "tick:1000", "tick:1000", "astop", "tick:100"}, []string{"stop"}},
+		{"in sync, dials to the configured untrusted peer are refused; Stop at every point and at the end", histParams{Prop: "C19", Cfg: uFail, Boot: "synced", Tx: true},
+			[]string{"tick:1000", "tick:1000", "tick:1000", "tx:T:R1", "tick:1000", "astop", "tick:100"}, []string{"stop", "drop"}},
 		{"cold start: connect, handshake, header sync, block download, in sync, tx traffic, block with a relevant tx", histParams{Prop: "C19", Cfg: cold, Boot: "cold", Tx: true},
 			[]string{"settle", "tx:T:R1", "tick:250", "mine:R1", "ans", "tick:250", "ext:2", "settle", "tick:2300"}, env},
 		{"trusted peer refuses the first two dials (waiting to reconnect)", histParams{Prop: "C19", Cfg: coldFail, Boot: "cold", Tx: true},
@@ -152,6 +156,9 @@ func c19Exec(t c19Task) c19Result {
 			w.fail("C19", "reconnects-and-resumes", "no convergence after connection loss ("+kind+")", why)
 		}
 		w.reannounceCheck()
+		if ok && len(w.viol) == 0 {
+			w.processedAnnounced("C19")
+		}
 		res.Outcome = fmt.Sprintf("%s while %s: converged=%v conns=%d", kind, phase, ok, len(w.PConns))
 	}
 	for i := range w.viol {
